@@ -5,7 +5,7 @@ import itertools
 from . import core
 from .core import sym, tree_coq, tree_leaves, tree_fill, ty_shape, tname, SymErr
 
-BOILER = r'''From Glam Require Import Base Spec Alg.
+BOILER = r'''From Glam Require Import Base Spec Sem Alg.
 From Gen Require Import Table.
 From Coq Require Import ZArith List String Bool Field.
 Import ListNotations.
@@ -18,26 +18,52 @@ Variable k_un : fop1 -> K -> K. Variable k_bin : fop2 -> K -> K -> K. Variable k
 Variables lit32 lit64 : Z -> K.
 Hypothesis lit32_0 : lit32 0 = k0. Hypothesis lit32_1 : lit32 1065353216 = k1. Hypothesis lit32_m1 : lit32 3212836864 = kopp k1. Hypothesis lit32_2 : lit32 1073741824 = kadd k1 k1.
 Hypothesis lit64_0 : lit64 0 = k0. Hypothesis lit64_1 : lit64 4607182418800017408 = k1. Hypothesis lit64_m1 : lit64 13830554455654793216 = kopp k1. Hypothesis lit64_2 : lit64 4611686018427387904 = kadd k1 k1.
+Hypothesis lit32_m2 : lit32 3221225472 = kopp (kadd k1 k1). Hypothesis lit64_m2 : lit64 13835058055282163712 = kopp (kadd k1 k1).
+Hypothesis lit32_nz : lit32 2147483648 = k0. Hypothesis lit64_nz : lit64 9223372036854775808 = k0.      (* -0.0 is zero as a field element *)
 Hypothesis lit32_half : kmul (kadd k1 k1) (lit32 1056964608) = k1. Hypothesis lit64_half : kmul (kadd k1 k1) (lit64 4602678819172646912) = k1.
-(* sign-bit tricks of the SIMD backends: xor / and-not with the constant -0.0 *)
-Hypothesis xor_sign_r : forall x, k_bin FXor x (lit32 2147483648) = kopp x. Hypothesis xor_sign_l : forall x, k_bin FXor (lit32 2147483648) x = kopp x.
-Definition a1 (o : fop1) : K -> K := match o with FNeg => kopp | FRecipStd => kinv | o => k_un o end.
-Definition a2 (o : fop2) : K -> K -> K := match o with FAdd => kadd | FSub => ksub | FMul => kmul | FDiv => kdiv | o => k_bin o end.
+(* the trigonometric oracles are odd / even (true of sin and cos over the reals) *)
+Hypothesis sin_opp : forall x, k_un FSin (kopp x) = kopp (k_un FSin x). Hypothesis cos_opp : forall x, k_un FCos (kopp x) = k_un FCos x.
+Hypothesis sin_opp_mul : forall x y, k_un FSin (kmul (kopp x) y) = kopp (k_un FSin (kmul x y)). Hypothesis cos_opp_mul : forall x y, k_un FCos (kmul (kopp x) y) = k_un FCos (kmul x y).
+(* carrier: a field element, or a literal that has not been used arithmetically yet (so that the sign-bit tricks of the SIMD
+   backends - xor / and / andnot with the constants -0.0, +0.0, 0x7fffffff - can be interpreted on the literal's bits; the
+   real numbers cannot tell -0.0 from +0.0) *)
+Inductive kv := KX (x : K) | KL32 (b : Z) | KL64 (b : Z).
+Definition kval (v : kv) : K := match v with KX x => x | KL32 b => lit32 b | KL64 b => lit64 b end.
+Definition is_negzero (v : kv) : bool := match v with KL32 b => Z.eqb b 2147483648 | KL64 b => Z.eqb b 9223372036854775808 | KX _ => false end.
+Definition is_poszero (v : kv) : bool := match v with KL32 b | KL64 b => Z.eqb b 0 | KX _ => false end.
+Definition a1 (o : fop1) (a : kv) : kv := KX (match o with FNeg => kopp (kval a) | FRecipStd => kinv (kval a) | o => k_un o (kval a) end).
+Definition a2 (o : fop2) (a b : kv) : kv :=
+  match o with
+  | FAdd => KX (kadd (kval a) (kval b)) | FSub => KX (ksub (kval a) (kval b)) | FMul => KX (kmul (kval a) (kval b)) | FDiv => KX (kdiv (kval a) (kval b))
+  | FXor => if is_negzero b then KX (kopp (kval a)) else if is_negzero a then KX (kopp (kval b)) else if is_poszero b then a else if is_poszero a then b else KX (k_bin o (kval a) (kval b))
+  | o => KX (k_bin o (kval a) (kval b)) end.
 Definition OA : Ops := {|
-  F32 := K; F64 := K;
-  f32_1 := a1; f32_2 := a2; f32_3 := fun _ a b c => kadd (kmul a b) c; f32_cmp := k_cmp; f32_pred := k_pred; f32_of_bits := lit32; f32_to_bits := fun _ => 0%Z;
-  f64_1 := a1; f64_2 := a2; f64_3 := fun _ a b c => kadd (kmul a b) c; f64_cmp := k_cmp; f64_pred := k_pred; f64_of_bits := lit64; f64_to_bits := fun _ => 0%Z;
-  f32_cvtt_i32 := fun _ => 0%Z; f32_of_i32 := fun _ => k0; f32_to_int := fun _ _ => 0%Z; f64_to_int := fun _ _ => 0%Z; f32_of_int := fun _ _ => k0; f64_of_int := fun _ _ => k0;
-  f32_to_f64 := fun x => x; f64_to_f32 := fun x => x;
-  i_1 := i_1 O0; i_2 := i_2 O0; i_checked := i_checked O0; i_cmp := i_cmp O0; i_cast := i_cast O0; i_shl := i_shl O0; i_shr := i_shr O0;
-  i_mixed := i_mixed O0; i_mixed_checked := i_mixed_checked O0; i_isneg := i_isneg O0; i_try := i_try O0 |}.
+  F32 := kv; F64 := kv;
+  f32_1 := a1; f32_2 := a2; f32_3 := fun _ a b c => KX (kadd (kmul (kval a) (kval b)) (kval c)); f32_cmp := fun c a b => k_cmp c (kval a) (kval b); f32_pred := fun p a => k_pred p (kval a); f32_of_bits := KL32; f32_to_bits := fun _ => 0%Z;
+  f64_1 := a1; f64_2 := a2; f64_3 := fun _ a b c => KX (kadd (kmul (kval a) (kval b)) (kval c)); f64_cmp := fun c a b => k_cmp c (kval a) (kval b); f64_pred := fun p a => k_pred p (kval a); f64_of_bits := KL64; f64_to_bits := fun _ => 0%Z;
+  f32_cvtt_i32 := fun _ => 0%Z; f32_of_i32 := fun _ => KX k0; f32_to_int := fun _ _ => 0%Z; f64_to_int := fun _ _ => 0%Z; f32_of_int := fun _ _ => KX k0; f64_of_int := fun _ _ => KX k0;
+  f32_to_f64 := fun x => KX (kval x); f64_to_f32 := fun x => KX (kval x);
+  i_1 := zi_1 false; i_2 := zi_2 false; i_checked := zi_checked; i_cmp := zi_cmp; i_cast := fun _ b z => wrap b z; i_shl := zi_shl false; i_shr := zi_shr false;
+  i_mixed := zi_mixed; i_mixed_checked := zi_mixed_checked; i_isneg := fun _ z => Z.ltb z 0; i_try := fun _ b z => if inr b z then Some z else None |}.
+(* results are compared after reading every remaining literal as a field element *)
+Fixpoint normv (v : valO OA) : valO OA :=
+  match v with
+  | VF32 x => VF32 (KX (kval x)) | VF64 x => VF64 (KX (kval x))
+  | VT l => VT ((fix go (l : list (valO OA)) : list (valO OA) := match l with [] => [] | x :: t => normv x :: go t end) l)
+  | VOpt (Some x) => VOpt (Some (normv x)) | v => v end.
+Definition rnorm (r : res (valO OA)) : res (valO OA) := match r with Ok v => Ok (normv v) | e => e end.
 Declare Scope K_scope. Delimit Scope K_scope with K.
 Infix "+" := kadd : K_scope. Infix "*" := kmul : K_scope. Infix "-" := ksub : K_scope. Infix "/" := kdiv : K_scope. Notation "- x" := (kopp x) : K_scope.
-Ltac lits := rewrite ?lit32_0, ?lit32_1, ?lit32_m1, ?lit32_2, ?lit64_0, ?lit64_1, ?lit64_m1, ?lit64_2, ?xor_sign_r, ?xor_sign_l.
-Ltac alg_ring := intros; vm_compute; lits; lanes_with ltac:(ring).
-(* rational functions: the side conditions of [field] (the code's own denominators) follow from the hypothesis H : det <> k0 *)
-Ltac side_nz := repeat split; let Hc := fresh "Hc" in (intro Hc; match goal with H : _ <> k0 |- _ => apply H end; rewrite <- Hc; ring).
-Ltac alg_field := intros; vm_compute; lits; lanes_with ltac:(field; side_nz).
+Ltac lits := rewrite ?lit32_m2, ?lit64_m2, ?lit32_nz, ?lit64_nz, ?lit32_0, ?lit32_1, ?lit32_m1, ?lit32_2, ?lit64_0, ?lit64_1, ?lit64_m1, ?lit64_2, ?sin_opp, ?cos_opp, ?sin_opp_mul, ?cos_opp_mul.
+Ltac lanes_k tac :=
+  repeat match goal with
+  | |- Ok _ = Ok _ => f_equal | |- VT _ = VT _ => f_equal | |- VOpt _ = VOpt _ => f_equal | |- Some _ = Some _ => f_equal | |- _ :: _ = _ :: _ => f_equal
+  | |- VF32 _ = VF32 _ => f_equal | |- VF64 _ = VF64 _ => f_equal | |- KX _ = KX _ => f_equal; tac
+  | |- [] = [] => reflexivity | |- VUnit = VUnit => reflexivity end.
+Ltac alg_ring := intros; vm_compute; lits; lanes_k ltac:(ring).
+(* rational functions: the side conditions of [field] (the code's own denominators) follow from the hypotheses H : d <> k0 *)
+Ltac side_nz := repeat split; let Hc := fresh "Hc" in (intro Hc; match goal with H : _ <> k0 |- _ => apply H; rewrite <- Hc; ring | H : _ <> k0 |- _ => apply H; exact Hc end).
+Ltac alg_field := intros; vm_compute; lits; lanes_k ltac:(field; side_nz).
 '''
 
 class AlgLemma(core.Lemma):
@@ -74,3 +100,9 @@ def minor(M, r, c): return [[M[i][j] for j in range(len(M)) if j != c] for i in 
 def cofactor(M, r, c):
     if len(M) == 1: return 'k1'
     d = det(minor(M, r, c)); return d if (r + c) % 2 == 0 else '(- %s)%%K' % d
+
+import re as _re
+def kxargs(args):
+    """argument terms: every float leaf `VF32 name` becomes `VF32 (KX name)` (variables range over the field)"""
+    return [_re.sub(r'VF(32|64) ([A-Za-z_][A-Za-z_0-9]*)', r'VF\1 (KX \2)', a) for a in args]
+def kxl(lanes): return ['(KX %s)' % l for l in lanes]
